@@ -104,6 +104,26 @@ func TopTypes(s *tlmini.Schema) []*tlmini.Ty {
 	return tys
 }
 
+// malformed re-encodes a value with ONE of its bytes / string / Bool leaves written in an invalid or non-canonical way
+// (tlmini.Malform: length prefix 255, long form for a short string, non-zero padding, length past the data, unknown
+// Bool magic): up to two such byte strings per value. What a decoder must do with them is decided by the schema
+// semantics (spec ops): refuse prefix 255 and unknown Bool magics, accept non-canonical long forms and any padding.
+func malformed(g *h.G, enc func() ([]byte, error)) [][]byte {
+	tlmini.Malform = tlmini.MalformPlan{}
+	enc()
+	leaves := tlmini.Malform.Seen
+	var out [][]byte
+	for k := 0; k < 2 && leaves > 0; k++ {
+		tlmini.Malform = tlmini.MalformPlan{Target: 1 + g.Rng.Intn(leaves), Kind: g.Rng.Intn(100000)}
+		if b, err := enc(); err == nil {
+			out = append(out, b)
+			g.Count("malformed_leaf")
+		}
+	}
+	tlmini.Malform = tlmini.MalformPlan{}
+	return out
+}
+
 // EmitCases writes, for every type in tys and every function of the schema, n random values each with the operations
 // tl.enc / tl.dec / go.tl.roundtrip, tl.fenc / tl.fdec / <reqOp> / tl.reqdec / tl.ans. `key` prefixes the non-trivial
 // case identity (schema id); whole != "": every line carries that (raw) text of the whole schema instead of the declarations it needs.
@@ -143,6 +163,9 @@ func EmitCases(g *h.G, s *tlmini.Schema, tys []*tlmini.Ty, n int, reqOp, key str
 			j := junk()
 			g.Emit("tl.dec", sub, t.Name, h.Hex(append(ref, h.MustUnHex(j)...)))
 			g.Emit("go.tl.roundtrip", sub, "type", t.Name, vs, j)
+			for _, mb := range malformed(g, func() ([]byte, error) { return s.Encode(t, v) }) {
+				g.Emit("tl.dec", sub, t.Name, h.Hex(append(mb, h.MustUnHex(junk())...)))
+			}
 			if t.Kind == tlmini.KBoxed && g.Rng.Intn(4) == 0 { // dispatch on an id that is not one of the type's
 				bad := append([]byte{}, ref...)
 				bad[g.Rng.Intn(4)] ^= byte(1 << uint(g.Rng.Intn(8)))
@@ -173,6 +196,10 @@ func EmitCases(g *h.G, s *tlmini.Schema, tys []*tlmini.Ty, n int, reqOp, key str
 			}
 			j := junk()
 			g.Emit("tl.fdec", sub, d.Ctor, h.Hex(append(ref, h.MustUnHex(j)...)))
+			for _, mb := range malformed(g, func() ([]byte, error) { return s.EncodeFields(d.Fields, ps.Items) }) {
+				g.Emit("tl.fdec", sub, d.Ctor, h.Hex(mb))
+				g.Emit("tl.reqdec", fullHex, h.Hex(append(tlmini.Le32(d.ID), mb...)))
+			}
 			g.Emit("go.tl.roundtrip", sub, "func", d.Ctor, ps.String(), j)
 			if i%3 == 0 || len(d.Fields) > 0 && i < 20 {
 				g.Emit(reqOp, sub, d.Ctor, ps.String())
@@ -184,6 +211,9 @@ func EmitCases(g *h.G, s *tlmini.Schema, tys []*tlmini.Ty, n int, reqOp, key str
 			rb, err := s.Encode(resTy, res)
 			if err != nil {
 				h.Fatalf("reference encoder: %v", err)
+			}
+			for _, mb := range malformed(g, func() ([]byte, error) { return s.Encode(resTy, res) }) {
+				g.Emit("tl.ans", sub, d.Ctor, h.Hex(mb))
 			}
 			otherTag := func() []byte { // a leading id that is neither a constructor of the result type nor liteServer.error
 				bad := append([]byte{}, rb[:4]...)
